@@ -48,14 +48,48 @@ def cases(tier, seed):
             out.append({"cls": "assoc", "kind": "assoc", "spec_a": left, "spec_b": right})
         else:
             out.append({"cls": "nest", "kind": "nest", "spec": gen.gen_nest(rng, deep=False)})
+    # appended (round 4): the outer block crosses a within-trial DERIVED factor whose sources are in the outer design
+    # but not in its crossing (sustain count 1), optionally together with a basic factor
+    for i in range(n // 5):
+        rng = random.Random("c25dx/%s/%d" % (seed, i))
+        out.append({"cls": "nest_dx", "kind": "nest", "all_offsets": True, "no_product": True, "spec": gen_nest_dx(rng)})
     return out
+
+
+def gen_nest_dx(rng):
+    spec = {"factors": {}, "order": [], "block": None}
+    for i in range(4):
+        spec["factors"]["F%d" % i] = gen._basic(rng, i, False, nl=rng.choice([2, 2, 3]) if i < 2 else 2)
+        spec["order"].append("F%d" % i)
+    deps = ["F0", "F1"] if rng.random() < 0.7 else ["F0"]
+    gen.add_derived(rng, spec, "D0", "within", deps=deps, else_level=False)
+    nl = len(spec["factors"]["D0"]["levels"])
+    keys = sorted(spec["factors"]["D0"]["table"])
+    for j, k in enumerate(rng.sample(keys, len(keys))):     # every derived level is producible
+        if j < nl:
+            spec["factors"]["D0"]["table"][k] = j
+    odesign = deps + ["D0"]
+    ocross = ["D0"]
+    if rng.random() < 0.5:
+        odesign.append("F2")
+        ocross.append("F2")
+    rng.shuffle(odesign)
+
+    def cross(design, crossing):
+        return {"op": "cross", "design": design, "crossings": [crossing], "cons": [], "rcc": True,
+                "mode": "weight", "align": "equal", "ctor": "CrossBlock"}
+    inner = cross(["F3"], ["F3"])
+    if rng.random() < 0.3:
+        inner["cons"].append({"type": "MinimumTrials", "trials": 3})
+    spec["block"] = {"op": "nest", "outer": cross(odesign, ocross), "inner": inner, "cons": []}
+    return spec
 
 
 def sub(spec, tree):
     return {"factors": spec["factors"], "order": spec["order"], "block": tree}
 
 
-def judge(spec, seq, fo, fi, so, si, To, Ti):
+def judge(spec, seq, fo, fi, so, si, To, Ti, all_offsets=False):
     """reasons why seq breaks the statement"""
     names = list(seq)
     L = len(seq[names[0]])
@@ -71,10 +105,13 @@ def judge(spec, seq, fo, fi, so, si, To, Ti):
         r = ref.valid(si, fi, gi)
         if r:
             return ["group %d is not a valid inner sequence: %s" % (g, r[0])]
-    proj = {n: seq[n][::Ti] for n in fo.design}
-    r = ref.valid(so, fo, proj)
-    if r:
-        return ["one trial per group is not a valid outer sequence: %s" % r[0]]
+    # all_offsets (outer blocks without constraints of their own): the k-th trial of every group, for each k, is a
+    # valid outer sequence as well - the crossing holds over the groups and within-trial derivations hold on every trial
+    for k in (range(Ti) if all_offsets else [0]):
+        proj = {n: seq[n][k::Ti] for n in fo.design}
+        r = ref.valid(so, fo, proj)
+        if r:
+            return ["trial %d of each group is not a valid outer sequence: %s" % (k, r[0])]
     return []
 
 
@@ -110,7 +147,7 @@ def run_nest(case):
             sets[strat] = set(O.seq_key(s) for s in r)
         for s in r[:CAP]:
             judged += 1
-            why = judge(spec, s, fo, fi, so, si, To, Ti)
+            why = judge(spec, s, fo, fi, so, si, To, Ti, case.get("all_offsets", False))
             if why:
                 viol.append({"kind": "nest_structure", "strategy": strat,
                              "msg": "%s returned %s ; %s" % (strat, O.seq_key(s)[:300], why[0][:300])})
@@ -119,7 +156,7 @@ def run_nest(case):
     if judged:
         counters["designs_judged"] = 1
     # product construction
-    if not tree["cons"] and "IterateSATGen" in sets:
+    if not tree["cons"] and "IterateSATGen" in sets and not case.get("no_product"):
         ro = ref.enumerate_valid(so, fo, cap=200, node_cap=60000)
         ri = ref.enumerate_valid(si, fi, cap=200, node_cap=60000)
         if ro is not None and ri is not None and len(ro) * (len(ri) ** To) <= 4 * CAP:
